@@ -110,8 +110,21 @@ class C09(Prop):
                 if many is not None:
                     # accumulated along the grouped dimension, in the listed order
                     axc = many
+                if arr["vkind"] == "i" and rng.random() < 0.35:
+                    # narrow integer data whose running totals leave the dtype's range: NumPy accumulates in the platform
+                    # integer, the result is NumPy's cumulative result (no wrap-around)
+                    vd = rng.choice(["int8", "uint8", "int16"])
+                    size = 1
+                    for n_ in shape:
+                        size *= n_
+                    top = {"int8": 127, "uint8": 255, "int16": 32767}[vd]
+                    if size + 1 < top:
+                        arr["vdtype"] = vd
+                        arr["vbase"] = top - size - 1
                 c = {"op": "cum", "array": arr, "fn": rng.choice(["cumsum", "cumprod"]), "axis": axc,
                      "skipna": rng.choice([None, None, False, True, True])}
+                if arr.get("vbase"):
+                    c["fn"] = "cumsum"              # (products of such values leave int64 too)
                 if c["skipna"] is not None and axc != "default" and rng.random() < 0.25:
                     c["positional"] = True          # a.cumsum(axis, skipna)
                 yield c
@@ -131,6 +144,10 @@ class C09(Prop):
                     arr["nan_at"] = nan_pattern(rng, shape, rng.choice(["none", "none", "some", "some", "fibre", "all"]))
                 # ties: duplicate some values
                 arr["ties"] = rng.random() < 0.4
+                # values in a scrambled order: the extremum is not at a corner of the array (where C-order and
+                # Fortran-order unravelling of the flat position coincide)
+                if rng.random() < 0.6:
+                    arr["scramble"] = rng.randrange(1, 10 ** 6)
                 c = {"op": "arg", "array": arr, "fn": rng.choice(["argmin", "argmax"]),
                      "axis": ax if rng.random() < 0.75 else None, "skipna": rng.choice([None, None, False, True, True])}
                 if many is not None:
@@ -141,10 +158,16 @@ class C09(Prop):
 
     def build(self, c):
         a = core.build_array(c["array"], 0)
-        if c["array"].get("ties"):
-            v = a.values.copy()
-            flat = v.reshape(-1)
+        if c["array"].get("ties") or c["array"].get("scramble"):
+            v = np.ascontiguousarray(a.values)
+            flat = v.reshape(-1).copy()
+            if c["array"].get("scramble"):
+                # (the NaN cells stay where the case says they are: only the other values change places)
+                free = np.flatnonzero(~np.isnan(flat)) if flat.dtype.kind == "f" else np.arange(flat.size)
+                flat[free] = flat[free][np.random.RandomState(c["array"]["scramble"]).permutation(free.size)]
             for i in range(0, flat.size - 1, 2):
+                if not c["array"].get("ties"):
+                    break
                 if not (flat.dtype.kind == "f" and (math.isnan(flat[i]) or math.isnan(flat[i + 1]))):
                     flat[i + 1] = flat[i]
             v2 = flat.reshape(v.shape)
